@@ -69,12 +69,32 @@ PosOk(t, line, col) ==
                               /\ col >= 1
                               /\ col <= (IF line <= Len(L) THEN L[line] ELSE 0) + 1
 
+\* C04/C17: a date-time written with a zone name carries that zone's offset at that instant.  The zone tables
+\* (pytz transition tables: <<days, second of day, offset>>, sorted) come with the case for the names found in the text.
+RECURSIVE DtsOf(_)
+DtsOfSeq(s) == UNION {DtsOf(s[i]) : i \in 1..Len(s)}
+DtsOfPairs(p) == UNION {DtsOf(p[i][2]) : i \in 1..Len(p)}
+DtsOf(v) == CASE v[1] = 14 -> {v}
+              [] v[1] = 16 -> DtsOfSeq(v[2])
+              [] v[1] = 17 -> DtsOfPairs(v[2])
+              [] v[1] = 18 -> DtsOfPairs(v[3]) \cup UNION {DtsOfPairs(v[4][i][2]) : i \in 1..Len(v[4])}
+                              \cup UNION {DtsOfSeq(v[5][i]) : i \in 1..Len(v[5])}
+              [] OTHER -> {}
+LeqInst(a, b) == a[1] < b[1] \/ (a[1] = b[1] /\ a[2] <= b[2])
+OffAt(z, inst) == LET I == {i \in 1..Len(z.trans) : LeqInst(z.trans[i], inst)}
+                  IN IF I = {} THEN z.pre ELSE z.trans[CHOOSE i \in I : \A j \in I : j <= i][3]
+ZoneConsistent(grids, zones) ==
+    \A d \in DtsOfSeq(grids) :
+        d[11] = <<>> \/ (\A k \in 1..Len(zones) : zones[k].name = d[11] =>
+                            OffAt(zones[k], InstantOf(d)) = (IF d[9] = 1 THEN 0 - d[10] ELSE d[10]))
+
 Judge(c) ==
     \E r \in {Result(ZRead(c.text, c.strict))} :
         IF c.k = "denotes" THEN
             IF ~r.ok THEN PrintT(<<"REJECT", c.id, "reader_" \o r.why, r.pos>>)
-            ELSE IF DocEq(r.grids, c.expect) THEN PrintT(<<"OK", c.id>>)
-            ELSE PrintT(<<"REJECT", c.id, "differs_" \o DiffClause(r.grids, c.expect), 0>>)
+            ELSE IF ~DocEq(r.grids, c.expect) THEN PrintT(<<"REJECT", c.id, "differs_" \o DiffClause(r.grids, c.expect), 0>>)
+            ELSE IF ~ZoneConsistent(r.grids, c.zones) THEN PrintT(<<"REJECT", c.id, "zone_offset_mismatch", 0>>)
+            ELSE PrintT(<<"OK", c.id>>)
         ELSE IF c.k = "same" THEN        \* two abstract documents (e.g. a grid and its round trip)
             (IF DocEq(c.a, c.b) THEN PrintT(<<"OK", c.id>>)
              ELSE PrintT(<<"REJECT", c.id, "differs_" \o DiffClause(c.a, c.b), 0>>))
